@@ -24,6 +24,9 @@ pin_project! {
 
 impl Deflate {
     pub fn new(data: BytesMut, compression_level: CompressionLevel) -> Self {
+        #[cfg(noodles_verif)]
+        use crate::verif::tokio;
+
         Self {
             handle: tokio::task::spawn_blocking(move || {
                 let mut dst = Vec::new();
